@@ -51,7 +51,7 @@ func (d *qeDom) Gen(r *gen.R, tier string, emit func(string)) {
 		blocks = 400
 	}
 	genReq := func(op string) {
-		p := r.Pick([]string{"o", "o", "o", "o", "e", "b", "n"})
+		p := r.Pick([]string{"o", "o", "o", "o", "e", "b", "n", "t", "u", "w"})
 		args := []string{op, p}
 		n := r.Intn(4)
 		for i := 0; i < n; i++ {
@@ -242,6 +242,12 @@ func (d *qeDom) send(payload string, script []string, waitMs int) (string, int) 
 		data = []byte(`{"query":""}`)
 	case "o":
 		data = []byte(`{"query":"a=1"}`)
+	case "t": // a well-formed object followed by garbage: not JSON
+		data = []byte(`{"query":"a=1"}]`)
+	case "u": // two values
+		data = []byte(`{"query":"a=1"} {"query":"a=2"}`)
+	case "w": // surrounding whitespace is fine
+		data = []byte(" {\"query\":\"a=1\"}\n")
 	}
 	from := d.run.C.NumPubs()
 	if d.run.C.Deliver(d.subject, reply, data) == 0 {
